@@ -302,13 +302,15 @@ Proof.
   rewrite E2. simpl. split; [exact Hs2|exact Hn].
 Qed.
 
+(* a task whose dispatch fails is unallocated (Session.undoAllocation): a RemoveTask step *)
 Lemma dispatch_all_ok l : forall s,
-  sess_ok s -> sess_ok (fst (dispatch_all s l)) /\ nodes (fst (dispatch_all s l)) = nodes s.
+  sess_ok s -> sess_ok (fst (dispatch_all s l)) /\ nsteps eps (nodes s) (nodes (fst (dispatch_all s l))).
 Proof.
-  induction l as [|t l IH]; intros s Hs; simpl; [split; [exact Hs|reflexivity]|].
+  induction l as [|t l IH]; intros s Hs; simpl; [split; [exact Hs|apply ns_refl]|].
   destruct (dispatch_ok s t Hs) as [H1 H2]. destruct (dispatch s t) as [s1 ok]. simpl in H1, H2.
-  destruct ok; [|split; [exact H1|exact H2]].
-  destruct (IH s1 H1) as [H3 H4]. split; [exact H3|]. rewrite H4. exact H2.
+  rewrite <- H2. destruct ok; [apply IH; exact H1|]. simpl.
+  destruct (heap s1 !! t) as [p|] eqn:Ep; [|split; [exact H1|apply ns_refl]].
+  apply unallocate_with_ok; [exact H1|exact (sess_ok_heap s1 _ p H1 Ep)].
 Qed.
 
 Theorem ssn_place_with_ok jr s k tid nid :
@@ -352,7 +354,7 @@ Proof.
   destruct (jr s4 j); [|exact Hdone].
   destruct (dispatch_all_ok (elements (default ∅ (j_index j !! skey Allocated))) s4 Hs4) as [H1 H2].
   destruct (dispatch_all s4 _) as [s5 ok]. simpl in H1, H2. simpl fst.
-  split; [exact H1|]. rewrite H2. exact Hstep.
+  split; [exact H1|]. eapply nsteps_trans; [exact Hstep|]. rewrite <- Hn4. exact H2.
 Qed.
 
 (* ---------- the action skeleton ---------- *)
